@@ -7,11 +7,13 @@ up to 255 bytes, generated Python values.
     pieces concatenate to the input and each is one complete type; argument counting in txdbus.interface agrees
   * sigFromPy(v) is one complete type; wrapper classes select exactly their type; when every container's elements share one
     DBus type or differ in Python type, v encodes under the inferred signature inside a variant and decodes to an equal value
-Why no deductive decision: genCompleteTypes is a generator with a nested closure and a recursive generator call, sigFromPy
-dispatches on Python run-time types of arbitrary objects - both outside the VC generator's subset; and 'each piece is one
-complete type' needs induction over the grammar.  Deductive support proved on every run: the wrapper classes and
-variantClassMap carry exactly the specification's type codes (lemmas over the live objects), and the consumers of the
-splitter (marshal / unmarshal drivers, C02) are verified against the contract this check establishes boundedly.
+Deductive part, proved on every run for EVERY string (contracts/splitter_contracts.py): genCompleteTypes (generator, eager
+reading) and its inner bracket matcher find_end terminate; every piece is non-empty and no longer than the input; the first
+piece is a prefix of the input; the pieces concatenate to the input.  The wrapper classes and variantClassMap carry exactly
+the specification's type codes (lemmas over the live objects).
+Why the bounded part still decides: 'each piece is ONE COMPLETE TYPE of the grammar' needs induction over the type grammar
+(bracket matching vs the grammar's recursion), and sigFromPy dispatches on Python run-time types of arbitrary objects -
+neither is derivable by the VC generator.
 """
 import itertools
 import random
@@ -74,7 +76,9 @@ def split_case(sig):
     from txdbus import marshal
     want = W.split(sig)
     try:
-        got = list(marshal.genCompleteTypes(sig))
+        got = H.with_alarm(10, lambda: list(marshal.genCompleteTypes(sig)))
+    except H.Timeout:
+        return 'genCompleteTypes(%r) did not return within 10 s' % (sig,)
     except Exception as e:
         return 'genCompleteTypes(%r) raised %s: %s' % (sig, type(e).__name__, e)
     if got != want:
@@ -276,11 +280,14 @@ def build(tier='quick'):
         lemmas.append(('wrapper %s declares type %s' % (name, code), z3.BoolVal(cls is not None and getattr(cls, 'dbusSignature', None) == code)))
         lemmas.append(('variantClassMap[%s] is %s' % (code, name), z3.BoolVal(marshal.variantClassMap.get(code) is cls)))
     lemmas.append(('variantClassMap has exactly the ten wrapper codes', z3.BoolVal(sorted(marshal.variantClassMap) == sorted(WRAPPERS.values()))))
-    sp = Spec('C19', w, lambda world: MC.MarshalModels(world), [], replay=replay,
+    from . import splitter_contracts as SC
+    targets = []
+    SC.add_splitter_contracts(w, targets)
+    sp = Spec('C19', w, lambda world: MC.MarshalModels(world), targets, replay=replay,
               bounded=[{'name': 'grammar-enumeration', 'run': run_bounded}],
               trusted=['the reference grammar contracts/wire_ref.py (ctlen / split), written from the DBus specification'],
-              assumed=['none beyond the bound: nothing about genCompleteTypes / sigFromPy is proved for all inputs'],
-              notes=['level exploration: the bounded enumeration decides; the lemmas only pin the wrapper tables'],
+              assumed=['genCompleteTypes is verified in its eager reading; nothing about sigFromPy is proved for all inputs'],
+              notes=['level exploration: the bounded enumeration decides the grammar part; termination / non-empty pieces / concatenation are proved'],
               explanation='exhaustive enumeration of the type grammar up to a length plus random deep signatures and generated values on the real code; wrapper tables pinned by lemmas',
               design_ref='DESIGN.md 4/C19')
     sp.lemmas = lemmas
